@@ -25,6 +25,10 @@ SPEC = dict(
                "as: never issued twice within a run. nng_id_map_alloc asserts hi > lo, so the narrowest range tested is two ids. "
                "nng_id_alloc refusing with free ids when explicit keys outside the range are stored (and returning NNG_ENOMEM where the "
                "manual says NNG_ENOSPC) is counted (idmap_refused_with_free_ids_outside_keys), not judged: the property is silent on it. "
+               "Found on earlier trees and since fixed: nni_lmq_resize put index (5030d88), nni_msgq_resize wrap test (b29f746), "
+               "rehash under nng_id_visit in nni_id_remove (b907fda), nni_id_alloc cursor overflow at hi == UINT64_MAX (216d2d3). "
+               "A random start value (NNG_MAP_RANDOM) cannot be seeded: on ranges up to 300 ids the case first walks the cursor to the "
+               "top of the range so that it replays exactly; 1 case in 16 uses the flag unprimed (marked in the case description). "
                "A blocked nni_msgq putter is not woken by a growing resize or by a get that makes room (messages stay FIFO in "
                "acceptance order): liveness, left to C06/C15.",
     technique="runtime reference-model monitor (candidate-set queue model, dictionary id model) + ASan/UBSan + invariant hooks",
@@ -47,13 +51,13 @@ SPEC = dict(
                      R("c18_queue", "asan", 8, 500, "api", 900),
                      R("c18_ids", "asan", 8, 8000, "map", 600),
                      R("c18_ids", "asan", 4, 300, "storm", 900)],
-               floor={"cases": 400000, "lmq_cases": 250000, "msgq_cases": 250000, "lossy_resizes": 200000,
-                      "msgq_blocked_puts": 20000, "msgq_handoffs": 50000,
-                      "api_resize_cases": 4000, "api_capacity_points": 80, "api_refills": 1000,
-                      "api_inflight_slot_used": 200, "api_random_cases": 800,
-                      "idmap_steps": 5000000, "idmap_wraps": 100000, "idmap_visits": 50000,
-                      "ids_sockets": 5000, "ids_pipes": 500, "ids_requests": 1500, "ids_surveys": 1500,
-                      "@classes": 2500},
+               floor={"cases": 600000, "lmq_cases": 258000, "msgq_cases": 296000, "lossy_resizes": 500000,
+                      "msgq_blocked_puts": 200000, "msgq_handoffs": 1500000,
+                      "api_resize_cases": 11000, "api_capacity_points": 88, "api_refills": 4000,
+                      "api_inflight_slot_used": 700, "api_random_cases": 3500,
+                      "idmap_steps": 40000000, "idmap_wraps": 1500000, "idmap_visits": 800000,
+                      "ids_sockets": 12000, "ids_pipes": 1000, "ids_requests": 4000, "ids_surveys": 4000,
+                      "@classes": 3300},
                exhaustive_note="lmq and msgq modes enumerate their (depth, offset, fill, resize, gets, puts, resize) space completely; "
                                "api enumerates its smaller space completely; random histories, id maps and storms are sampled"),
     thorough=dict(runs=[R("c18_queue", "asan", 16, 100000, "lmq", 3000),
@@ -61,9 +65,10 @@ SPEC = dict(
                         R("c18_queue", "asan", 16, 2500, "api", 3000),
                         R("c18_ids", "asan", 16, 100000, "map", 3000),
                         R("c18_ids", "asan", 8, 1500, "storm", 3000)],
-                  floor={"cases": 3000000, "lmq_cases": 250000, "msgq_cases": 250000, "lossy_resizes": 1000000,
-                         "api_resize_cases": 10000, "api_capacity_points": 80, "api_random_cases": 30000,
-                         "idmap_steps": 200000000, "idmap_wraps": 4000000,
-                         "ids_sockets": 100000, "ids_pipes": 10000, "ids_requests": 40000, "ids_surveys": 40000,
-                         "@classes": 3000}),
+                  floor={"cases": 3000000, "lmq_cases": 258000, "msgq_cases": 296000, "lossy_resizes": 3000000,
+                         "api_resize_cases": 33000, "api_capacity_points": 88, "api_random_cases": 35000,
+                         "idmap_steps": 1000000000, "idmap_wraps": 40000000,
+                         "ids_sockets": 120000, "ids_pipes": 12000, "ids_requests": 40000, "ids_surveys": 40000,
+                         "@classes": 4500},
+                  exhaustive_note="as quick, with api depths up to 8 and 20x the random histories"),
 )
